@@ -266,6 +266,8 @@ def _lift(x):
         return z3.ToReal(x.e)
     if isinstance(x, SymBool):
         return z3.If(x.e, z3.RealVal(1), z3.RealVal(0))
+    if isinstance(x, z3.ArithRef):
+        return z3.ToReal(x) if z3.is_int(x) else x
     return realval(x)
 
 
@@ -441,7 +443,11 @@ def _divide(num, den):
     if not ok:
         c.notes['div_by_zero'] = True
         raise SymZeroDivision('symbolic division by zero')
-    return SymReal(num / den)
+    if z3.is_rational_value(den) or z3.is_rational_value(z3.simplify(den)):
+        return SymReal(num / den)
+    # x / y is kept as x * (1/y): the reciprocal is one shared sub-term (z3 purifies it into a single
+    # auxiliary variable; harnesses can let-abstract it)
+    return SymReal(num * (z3.RealVal(1) / den))
 
 
 class SymZeroDivision(PathAbort):
@@ -648,3 +654,29 @@ def twin_record(ctx, cap, inputs=None, rng=None):
     r, secs, m = ctx.reachable(cap, inputs=inputs, rng=rng)
     st = {'sat': 'twin', 'unsat': 'twin-fail'}.get(r, 'twin-unknown')
     return {'name': 'reachability-twin', 'status': st, 'secs': secs}
+
+
+def radicand_factors(ctx, r):
+    """For a sqrt variable r whose raw radicand is t0*t0 + t1*t1 + ... return [t0, t1, ...] (the
+    components of the vector whose norm r is), else None."""
+    e = expr(r)
+    if not (z3.is_const(e) and e.decl().name() in ctx.defs):
+        return None
+    rad = ctx.defs[e.decl().name()]
+    adds = []
+    st = [rad]
+    while st:
+        x = st.pop()
+        if z3.is_add(x):
+            st.extend(reversed(x.children()))
+        else:
+            adds.append(x)
+    out = []
+    for a in adds:
+        if z3.is_rational_value(a) and a.numerator_as_long() == 0:
+            continue
+        if z3.is_mul(a) and len(a.children()) == 2 and z3.eq(a.children()[0], a.children()[1]):
+            out.append(a.children()[0])
+        else:
+            return None
+    return out
